@@ -71,8 +71,25 @@ def st_mix(r):
     return out
 
 
+# comment lines around the macro's exact spelling: other letter cases of the keywords, of the marker and of the family name, other
+# words for "on", missing parts — none of them is the macro — and the legal spacing variants, which are
+NEAR_MACRO = ["// #EnableDice {f} TRUE", "// #EnableDice {f} True", "// #EnableDice {f} FALSE", "// #EnableDice {f} False", "// #enabledice {f} true",
+              "// #ENABLEDICE {f} true", "// #EnableDice {F} true", "// #EnableDice {f} yes", "// #EnableDice {f} 1", "// #EnableDice {f} on", "// #EnableDice {f}",
+              "// #EnableDice {f}true", "// EnableDice {f} true", "# EnableDice {f} true", "// #EnableDice  true", "// #EnableDice {f} tru e", "// # EnableDice {f} true",
+              "//\t#EnableDice\t{f}\ttrue", "//#EnableDice {f} true", "// #EnableDice {f}  true  ", "// #EnableDice {f} truely", "// #EnableDice {f} false",
+              "// #EnableDice {f} FALSE\n// #EnableDice {f} False", "//   #EnableDice   {f}   TRUE"]
+
+
+def macro_enables(text, name):
+    """the macro as the grammar spells it: "//" sp "#EnableDice" sp1x <family> sp1x "true" (sp = blanks, tabs, CR, LF)"""
+    return re.search(r"//[ \n\t\r]*#EnableDice[ \n\t\r]+" + name + r"[ \n\t\r]+true", text) is not None
+
+
 def with_macro(r, body):
     fam = r.choice(list(MACRO))
+    if r.random() < 0.4:
+        line = r.choice(NEAR_MACRO).replace("{f}", MACRO[fam]).replace("{F}", MACRO[fam].upper())
+        return f"{line}\n{body}", fam, "near"
     on = r.choice(["true", "true", "false"])
     return f"// #EnableDice {MACRO[fam]} {on}\n{body}", fam, on
 
@@ -118,9 +135,15 @@ def main(tier):
                 g = ProgGen(r, illtyped=0.05)
                 s0, _ = g.program()
                 src = mutate(r, s0).decode("utf-8", "replace")
-            if r.random() < 0.12:
+            if r.random() < 0.15:
                 src, _, _ = with_macro(r, src)
             cases.append((src.encode("utf-8", "replace"), cfg))
+        # every near-macro line x every family, followed by that family's dice, with all families switched off
+        FAM_BODY = {"c": "b2 + p1", "w": "2a5 + 3a8k6", "f": "f + 4", "d": "3c2"}
+        for line in NEAR_MACRO:
+            for fam in MACRO:
+                src = line.replace("{f}", MACRO[fam]).replace("{F}", MACRO[fam].upper()) + "\n" + FAM_BODY[fam]
+                cases.append((src.encode("utf-8"), r.choice(["-", "-", "S", "N,B"])))
         lines = [f"pegtrace {cfg} {hx(src)}" for src, cfg in cases]
         g_out = go_child().run(lines)
         m_out = lean_child().run(lines)
@@ -141,7 +164,7 @@ def main(tier):
             emitted = set(int(x) for x in tr.split(",")) if tr not in ("-", "") else set()
             flags = cfg.split(",")[0] if cfg != "-" else ""
             for fam, nums in fam_nums.items():
-                if emitted & nums and fam not in flags and ("#EnableDice " + MACRO[fam] + " true") not in text:
+                if emitted & nums and fam not in flags and not macro_enables(text, MACRO[fam]):
                     run.violation("disabled-family-compiled:" + MACRO[fam], {"source": text, "cfg": cfg, "implementation": a[:300],
                                                                               "opcodes": sorted(emitted & nums)})
             if "S" in cfg.split(",") or ",S" in cfg:
@@ -183,6 +206,36 @@ def main(tier):
                     run.violation("macro-leaks-into-next-evaluation", rep)
                 else:
                     run.nontriv(("seq", cfg, p1, probe))
+        # ---------- a macro acts on the text it stands in, nothing else: bodies the host stored as source text (compiled on first use),
+        #            and texts run through RunExpr, are judged by the VM's own switches — during the input that carries the macro and after
+        lz, lzmeta = [], []
+        for fam in MACRO:
+            body = FAM_BODY[fam]
+            for kind, prog in (("computed", "x"), ("compjson", "x"), ("funcjson", "x()")):
+                for first in (f"// #EnableDice {MACRO[fam]} true\n{prog}", f"// #EnableDice {MACRO[fam]} true\n1", f"// #EnableDice {MACRO[fam]} true\n{prog} + {prog}"):
+                    lz.append(f"lazyseq L30000 {3:032x} {kind} {hx(body)} {hx(first)} {hx(prog)} {hx(prog)} +runexpr")
+                    lz.append(f"lazyseq L30000 {3:032x} {kind} {hx(body)} {hx(prog)} +runexpr")
+                    lzmeta.append((fam, kind, first, prog))
+        lo = go_child(line_timeout=20).run(lz)
+        for i, (fam, kind, first, prog) in enumerate(lzmeta):
+            a, b = lo[2 * i], lo[2 * i + 1]
+            run.evaluations += 1
+            run.count("macro-vs-stored-text.cases")
+            def vals(t):
+                out_ = []
+                for part in t.split(" | "):
+                    f = part.split()
+                    out_.append((f[0], f[1] if len(f) > 1 and f[0] == "ok" else "", " ".join(x for x in f if x.startswith("rx="))))
+                return out_
+            va, vb = vals(a), vals(b)
+            ref = vb[0] if vb else None
+            # the stored text, evaluated by the second and third input (no macro there) and through RunExpr after every input
+            bad = [x for x in va[1:] if ref and (x[0], x[1], x[2]) != ref] + [x for x in va[:1] if ref and x[2] != ref[2]]
+            if bad:
+                run.violation("macro-reaches-text-outside-its-input", {"family": MACRO[fam], "stored_as": kind, "stored_text": FAM_BODY[fam], "inputs": [first, prog, prog],
+                                                                       "with_macro_history": a[:500], "fresh": b[:300]})
+            else:
+                run.nontriv(("lazymacro", fam, kind, first))
         # ---------- configuration stability: whatever earlier inputs did (including failing ones, default-sides expressions that
         #            fail, budgets that run out, st lists), the host's switches are what they were and a later input is judged by them
         DEXPR = ["20", "面数", "1/0", "面数 + 0", "d4"]
